@@ -206,6 +206,11 @@ func (p *printer) expr(n *Node) {
 			if i > 0 {
 				p.w(",")
 			}
+			if len(n.K) == 1 && k.T == "ValueProjection" && k.K[0].T == "Identity" && k.K[1].T == "Identity" {
+				// "[*]" would be read as the list wildcard
+				p.w("(", "*", ")")
+				continue
+			}
 			p.expr(k)
 		}
 		p.w("]")
